@@ -5,7 +5,10 @@
 (ii) property predicate on the real object: it behaves like the duplicate-free Python list kept by
      `Ref` below (len, iteration, indexing, slicing, index, count, membership with numeric aliases,
      equality, copy, pickle), auto labels are the documented ones, rejected relabels change nothing;
-(iii) the Lean list specification `LSpec.step` (what the theorems are stated against) vs `Ref`.
+(iii) the Lean list specification `LSpec.step2` (what the theorems are stated against) vs `Ref`;
+(iv) readers through the compiled model (`iter`, `contains`, `index`, `at`, `==` with a sequence / a set, the
+     auto label from the source-extracted rule, `_relabel_as_integers` + restore), exception classes of every
+     rejected call (model: `Generated.VarsRules`; list: what a Python list raises).
 """
 import copy
 import pickle
@@ -80,9 +83,81 @@ class Ref:
         return True
 
 
+LIST_CLS = {'pop': 'IndexError'}   # list.pop() of an empty list; everything else a list (or the docstrings) reject: ValueError
+
+
+def labs(xs):
+    return ','.join('~' if x is None else lab(x) for x in xs) or '-'
+
+
+def readers(ctx, r, v, ref, hist, lines, expect, speclines, meta, errcls):
+    """reader lines for the compiled model + the same facts judged against the plain list"""
+    l = ref.l; n = len(l)
+
+    def emit(line, exp):
+        lines.append(line); expect.append(exp); speclines.append(None); meta.append(('reader:' + line.split(' ')[0], tuple(hist)))
+
+    def bad(site, what, expr):
+        code = repro(hist) + f"\nL = {l!r}  # expected list behaviour\nassert {expr}, {what!r}\n"
+        ctx.fail('property', f'Variables.{site}', 'reader after history', what, repro=code, detail=dict(history=hist, expected=repr(l)))
+
+    emit('iter', f"ok {','.join(lab(x) for x in v)};{len(v)}")
+    for x in r.sample(ALPHA + EXTRA_NEW, 2):
+        emit(f'contains {lab(x)}', f'ok {int(x in v)}')
+        try:
+            emit(f'index {lab(x)}', f'ok {v.index(x)}')
+        except Exception as e:  # noqa
+            emit(f'index {lab(x)}', f'err {type(e).__name__}')
+            if x not in l and type(e).__name__ != 'ValueError':
+                bad('index', f'index({x!r}) of an unknown label raised {type(e).__name__}, a list raises ValueError',
+                    f'_cls(lambda: v.index({x!r})) == "ValueError"')
+    for i in r.sample(range(-n - 1, n + 2), min(2, 2 * n + 3)):
+        try:
+            emit(f'at {i}', f'ok {lab(v[i])}')
+        except Exception as e:  # noqa
+            emit(f'at {i}', f'err {type(e).__name__}')
+            if not (-n <= i < n) and type(e).__name__ != 'IndexError':
+                bad('getitem', f'v[{i}] out of range raised {type(e).__name__}, a list raises IndexError', f'_cls(lambda: v[{i}]) == "IndexError"')
+    others = [list(l), l[1:] + l[:1], l[:-1], l + ['zz'], l[::-1]]
+    o = r.choice(others)
+    emit(f'eqseq {labs(o)}', f'ok {int(v == o)}')
+    if (v == o) != (l == o) or (v != o) != (l != o) or (v == tuple(o)) != (l == o):
+        bad('eq', f'v == {o!r} is {v == o}', f'(v == {o!r}) == (L == {o!r}) and (v != {o!r}) == (L != {o!r}) and (v == tuple({o!r})) == (L == {o!r})')
+    so = r.choice([list(l), l[:-1], l + ['zz'], l[::-1], (l[:-1] + ['zz']) if l else ['zz']])
+    r.shuffle(so)
+    fs = frozenset(so)
+    emit(f'eqset {labs(so)}', f'ok {int(v == fs)}')
+    if (v == fs) != (set(l) == fs) or (v == set(so)) != (set(l) == fs):
+        bad('eq', f'v == frozenset({so!r}) is {v == fs}', f'(v == frozenset({so!r})) == (set(L) == frozenset({so!r}))')
+    w = v.copy(); got = w._append()
+    doc = len(l)
+    if doc in l:
+        doc = 0
+        while doc in l:
+            doc += 1
+    emit('autolabel', f'ok {lab(got)}')
+    if got != doc or type(got) is not int:
+        bad('append', f'auto label {got!r}, documented {doc!r}', f'v.copy()._append() == {doc!r}')
+    w = v.copy(); m = w._relabel_as_integers(); mid = state(w)
+    try:
+        w._relabel(m); ok = True
+    except ValueError:
+        ok = False
+    ms = ','.join(f'{lab(a)}={lab(b)}' for a, b in sorted(m.items()))
+    # the model prints the mapping in its own insertion order: compare it as a set of pairs (done by the caller)
+    emit('restore', ('ok ' if ok else 'err ') + mid + ' / ' + ms + ((' / ' + state(w)) if ok else ''))
+    if mid.split(';')[0] != ','.join(lab(i) for i in range(n)) or m != {i: x for i, x in enumerate(l) if x != i} or not ok or list(w) != l:
+        bad('relabel_as_integers', f'_relabel_as_integers gave {mid.split(";")[0]} / {m!r}; relabel(mapping) {"gave " + repr(list(w)) if ok else "raised"}',
+            'w = v.copy(); m = w._relabel_as_integers(); assert list(w) == list(range(len(L))); w._relabel(m); assert list(w) == L')
+    ctx.tick('readers')
+
+
 def state(v):
     i2l, l2i, stop = v.__reduce__()[2][:3]
-    items = ','.join(f'{i}={lab(i2l[i])}' for i in sorted(i2l, key=lambda k: (not isinstance(k, int), k if isinstance(k, int) else 0, repr(k))))
+    # a key of _index_to_label may be an alias object of the index (`idx = self._label_to_index.pop(old, old)` with an alias `old`)
+    def ik(k):
+        return int(k) if isinstance(k, (int, float, np.integer, np.floating)) and float(k).is_integer() else k
+    items = ','.join(f'{ik(i)}={lab(i2l[i])}' for i in sorted(i2l, key=lambda k: (not isinstance(ik(k), int), ik(k) if isinstance(ik(k), int) else 0, repr(k))))
     return ';'.join([','.join(lab(x) for x in v), items, str(len(l2i)), str(stop)])
 
 
@@ -118,16 +193,16 @@ def observe(ctx, r, v, ref, hist, opname):
         try:
             c = v.count(y); m = y in v
         except Exception as e:  # noqa
-            return bad(f'count/contains({y!r}) raised {e!r}', 'count')
+            return bad(f'count/contains({rp(y)}) raised {e!r}', 'count')
         if bool(c) != exp or m != exp or c not in (0, 1):
-            return bad(f'count({y!r})={c}, in={m}, list says {exp}', 'count', f'bool(v.count({y!r})) == ({x!r} in L) and (({y!r} in v) == ({x!r} in L))')
+            return bad(f'count({rp(y)})={c}, in={m}, list says {exp}', 'count', f'bool(v.count({rp(y)})) == ({x!r} in L) and (({rp(y)} in v) == ({x!r} in L))')
         try:
             i = v.index(y)
             if not exp or i != l.index(x):
-                return bad(f'index({y!r})={i} but list says {l.index(x) if exp else "absent"}', 'index')
+                return bad(f'index({rp(y)})={i} but list says {l.index(x) if exp else "absent"}', 'index')
         except ValueError:
             if exp:
-                return bad(f'index({y!r}) raised but label present', 'index')
+                return bad(f'index({rp(y)}) raised but label present', 'index')
     n = len(l)
     for i in range(-n - 1, n + 1):
         try:
@@ -159,26 +234,253 @@ def observe(ctx, r, v, ref, hist, opname):
             return bad('append on a copy visible in the original', 'copy')
 
 
+# ---------------------------------------------------------------- numeric aliases: the canonicalisation itself
+
+def pk(o):
+    """protocol form of a Python object (kinds kept apart, unlike `lab`)"""
+    if isinstance(o, bool):
+        return f'B:{int(o)}'
+    if isinstance(o, int):
+        return f'I:{o}'
+    if isinstance(o, float):
+        return f'F:{int(o)}'
+    if isinstance(o, np.integer):
+        return f'NI:{int(o)}'
+    if isinstance(o, np.floating):
+        return f'NF:{int(o)}'
+    if isinstance(o, str):
+        return 's:' + o.encode().hex()
+    if isinstance(o, tuple):
+        return 'T:[' + '+'.join(pk(x) for x in o) + ']'
+    raise TypeError(o)
+
+
+def canon_py(o):
+    """reference canonicalisation, written independently of the model: integral numbers -> int, tuples element-wise"""
+    if isinstance(o, tuple):
+        return ('t',) + tuple(canon_py(x) for x in o)
+    if isinstance(o, str):
+        return ('s', o)
+    return ('i', int(o))
+
+
+def alias_table():
+    t = []
+    for z in range(-2, 4):
+        t += [z, float(z), np.int8(z), np.int16(z), np.int32(z), np.int64(z), np.float16(z), np.float32(z), np.float64(z)]
+        if z >= 0:
+            t += [np.uint8(z), np.uint16(z), np.uint32(z), np.uint64(z)]
+        if z in (0, 1):
+            t.append(bool(z))
+    t.append(-0.0)
+    t += ['', 'a', '1', '0', (), (1,), (1.0,), (True,), (0,), ('a',), (True, 'a'), (1, 'a'), ((1,), 2.0), ((True,), 2), ((), ()), (1, 2), (1.0, 2.0, 'a')]
+    return t
+
+
+def rp(o):
+    """source text that rebuilds the object with its exact type (NumPy 1.x reprs drop the type)"""
+    if isinstance(o, np.generic):
+        return f'np.{type(o).__name__}({o!r})'
+    if isinstance(o, tuple):
+        return '(' + ''.join(rp(x) + ', ' for x in o) + ')'
+    if isinstance(o, list):
+        return '[' + ', '.join(rp(x) for x in o) + ']'
+    return repr(o)
+
+
+def same_obj(c, flat):
+    """objects of the table with the canonical form c (a canonical pair), else the plain value"""
+    return [x for x in flat if canon_py(x) == c] or [c[1]]
+
+
+def is_np(o):
+    return isinstance(o, np.generic)
+
+
+def alias_cases(ctx, r, lines, expect, speclines, meta):
+    """(a) Python key equality (what a dict lookup does: `b in {a: 0}`) against the model's `pyEq` and against equality of
+    the model's canonical labels, exhaustively over all pairs of the alias table; (b) `Variables(objs).count/index(q)` against
+    the object-level model `KState` and against the list of canonical objects."""
+    T = alias_table()
+
+    def emit(line, exp, what):
+        lines.append(line); expect.append(exp); speclines.append(None); meta.append((what, (line,)))
+
+    for a in T:
+        emit(f'canon {pk(a)}', f'ok {lab(a)}', 'alias:canon')
+    npairs = 0
+    for a in T:
+        for b in T:
+            if (is_np(a) and isinstance(b, tuple)) or (is_np(b) and isinstance(a, tuple)):
+                continue   # NumPy scalar == tuple is NumPy broadcasting, not key equality (DESIGN D23)
+            same = b in {a: 0}
+            if same != (canon_py(a) == canon_py(b)):
+                ctx.fail('property', 'Variables.aliases', 'key equality', f'{a!r} and {b!r}: dict says {"same" if same else "different"} key, canonical forms say otherwise',
+                         repro=f'import numpy as np\nassert ({rp(b)} in {{{rp(a)}: 0}}) == {canon_py(a) == canon_py(b)}, "alias table: {pk(a)} vs {pk(b)}"')
+                return
+            emit(f'pyeq {pk(a)} {pk(b)}', f'ok {int(same)}', 'alias:pyeq')
+            npairs += 1
+    ctx.tick('alias pairs', npairs)
+    store = [o for o in T if not is_np(o)]
+    cases = [([o], q) for o in store for q in T]
+    for _ in range(ctx.scale(400, 4000)):
+        cases.append(([r.choice(store) for _ in range(r.randint(2, 5))], r.choice(T)))
+    for objs, q in cases:
+        v = Variables(objs)
+        ref = []
+        for o in objs:
+            if canon_py(o) not in ref:
+                ref.append(canon_py(o))
+        want = canon_py(q) in ref
+        try:
+            c = v.count(q); inn = q in v
+            idx = v.index(q) if c else '-'
+        except Exception as e:  # noqa
+            ctx.fail('property', 'Variables.aliases', 'count/index raised', f'Variables({objs!r}): count/index({q!r}) raised {type(e).__name__}: {e}',
+                     repro=f'import numpy as np\nfrom dimod.variables import Variables\nv = Variables({rp(objs)}); v.count({rp(q)}); ({rp(q)} in v) and v.index({rp(q)})')
+            return
+        ctx.case(('alias', pk(q), tuple(pk(o) for o in objs)), nontrivial=bool(c))
+        if bool(c) != want or inn != want or c not in (0, 1) or (want and idx != ref.index(canon_py(q))) or [canon_py(x) for x in v] != ref:
+            ctx.fail('property', 'Variables.aliases', 'count/index of an alias', f'Variables({objs!r}): count({q!r})={c}, index={idx}, list(v)={list(v)!r}; the list of labels says present={want}',
+                     repro=f'import numpy as np\nfrom dimod.variables import Variables\nv = Variables({rp(objs)})\nassert bool(v.count({rp(q)})) == {want} and (({rp(q)} in v) == {want})'
+                           + (f' and v.index({rp(q)}) == {ref.index(canon_py(q))}' if want else ''))
+            return
+        emit(f"kcount {','.join(pk(o) for o in objs)} {pk(q)}", f'ok {int(c)} {idx} {state(v)}', 'alias:kcount')
+    ctx.tick('alias count/index', len(cases))
+    # (c) object-level histories (aliases stored, NumPy scalars included; no tuples next to NumPy scalars: D23)
+    flat = [o for o in T if not isinstance(o, tuple)]
+
+    def same(c):
+        return [x for x in flat if canon_py(x) == canon_py(c)] or [c]
+
+    for _ in range(ctx.scale(300, 3000)):
+        v = Variables(); ref = []; toks = []; flags = ''; code = ['import numpy as np', 'from dimod.variables import Variables', 'v = Variables()']
+        for _ in range(r.randint(1, 10)):
+            k = r.choice(['+', '+', '?', '?', '~', 'p', 'r', 'c', 'x', 'R', 'R', 'R'] if ref else ['+', '?', '~', 'p', 'x', 'R'])
+            # the operation, its reference effect and whether the list accepts it are fixed BEFORE the real call
+            if k in '+?':
+                o = r.choice(flat); toks.append(k + pk(o)); src = f'v._append({rp(o)}, permissive={k == "?"})'
+                want = canon_py(o) not in ref or k == '?'
+                if canon_py(o) not in ref:
+                    ref.append(canon_py(o))
+                call = lambda: v._append(o, permissive=(k == '?'))  # noqa: E731
+            elif k == '~':
+                toks.append('+~'); src = 'v._append()'; n = len(ref)
+                if ('i', n) in ref:
+                    n = 0
+                    while ('i', n) in ref:
+                        n += 1
+                ref.append(('i', n)); want = True; call = lambda: v._append()  # noqa: E731
+            elif k == 'p':
+                toks.append('p'); src = 'v._pop()'; want = bool(ref)
+                if ref:
+                    ref.pop()
+                call = lambda: v._pop()  # noqa: E731
+            elif k == 'x':
+                o = r.choice(flat) if r.random() < .4 or not ref else r.choice(same_obj(r.choice(ref), flat))
+                toks.append('x' + pk(o)); src = f'v._remove({rp(o)})'
+                want = canon_py(o) in ref
+                if want:
+                    ref.remove(canon_py(o))
+                call = lambda: v._remove(o)  # noqa: E731
+            elif k == 'R':
+                # mapping over objects: keys / values are aliases of current labels, other objects, swaps and cycles
+                cur = list(v)
+                ks = [r.choice(same(c)) for c in r.sample(cur, min(len(cur), r.randint(0, 3)))]
+                ks += [r.choice(flat) for _ in range(r.randint(0, 2))]
+                if r.random() < .4 and len(ks) > 1:
+                    mp = {ks[i]: r.choice(same(ks[(i + 1) % len(ks)])) for i in range(len(ks))}
+                else:
+                    mp = {a: r.choice(flat) for a in ks}
+                toks.append('R:' + '|'.join(f'{pk(a)}>{pk(b)}' for a, b in mp.items()))
+                src = 'v._relabel({' + ', '.join(f'{rp(a)}: {rp(b)}' for a, b in mp.items()) + '})'
+                cm = {canon_py(a): canon_py(b) for a, b in mp.items()}
+                news = list(cm.values())
+                want = len(set(news)) == len(news) and all(not (n in ref and n not in cm) for n in news)
+                if want:
+                    ref = [cm.get(x, x) for x in ref]
+                call = lambda: v._relabel(mp)  # noqa: E731
+            elif k == 'r':
+                toks.append('r'); src = 'v._relabel_as_integers()'; ref = [('i', i) for i in range(len(ref))]; want = True
+                call = lambda: v._relabel_as_integers()  # noqa: E731
+            else:
+                toks.append('c'); src = 'v._clear()'; ref = []; want = True; call = lambda: v._clear()  # noqa: E731
+            code.append(f'try: {src}\nexcept (ValueError, IndexError): pass')
+            ok = True
+            try:
+                call()
+            except (ValueError, IndexError):
+                ok = False
+            flags += str(int(ok))
+            if ok != want or [canon_py(x) for x in v] != ref or len(v) != len(ref):
+                ctx.fail('property', 'Variables.aliases', 'history over alias objects', f'after {code[3:]}: list(v)={list(v)!r}, last call raised={not ok}; labels should be {[c[1] for c in ref]!r}, list accepts the last call={want}',
+                         repro='\n'.join(code[:-1]) + f'\n_ok = True\ntry: {src}\nexcept (ValueError, IndexError): _ok = False\nassert _ok == {want} and [x if isinstance(x, str) else int(x) for x in v] == {[c[1] for c in ref]!r}')
+                return
+        ctx.case(('khist', tuple(toks)), nontrivial=len(v) > 0)
+        emit('khist ' + ','.join(toks), f"ok {flags} {state(v)} {','.join(lab(x) for x in v)}", 'alias:khist')
+    ctx.tick('alias object histories', ctx.scale(300, 3000))
+
+
+def slice_table(ctx, lines, expect, speclines, meta, errcls):
+    """`Variables(l)[slice]` against CPython list slicing and the compiled model, exhaustively over
+    n = 0..4 labels x start, stop in {None, -6..6} x step in {None, 0, +-1, +-2, +-3}"""
+    base = ['a', 2, 0, 1]
+    vals = [None] + list(range(-6, 7))
+    n_cases = 0
+    for n in range(5):
+        l = base[:n]
+        for a in vals:
+            for b in vals:
+                for c in (None, 0, 1, -1, 2, -2, 3, -3):
+                    sl = slice(a, b, c)
+                    v = Variables(l)
+                    lines.append('clear'); expect.append('ok ' + state(Variables())); speclines.append('ok '); meta.append(('slice-table', ()))
+                    lines.append('extend 1 ' + labs(l)); expect.append('ok ' + state(v)); speclines.append('ok ' + ','.join(lab(x) for x in l)); meta.append(('slice-table', (f'Variables({l!r})',)))
+                    try:
+                        want = l[sl]
+                    except ValueError:
+                        want = None
+                    try:
+                        w = v[sl]; got = list(w)
+                    except ValueError:
+                        w = None; got = None
+                    n_cases += 1
+                    ctx.case(('slice-table', n, a, b, c), nontrivial=bool(want))
+                    if got != want or (w is not None and (len(w) != len(want) or not (w == want))):
+                        ctx.fail('property', 'Variables.slice', 'exhaustive slice table', f'Variables({l!r})[{sl!r}] gives {got!r}, the list gives {want!r}',
+                                 repro=f'from dimod.variables import Variables\nassert list(Variables({l!r})[{sl!r}]) == {l!r}[{sl!r}]')
+                        return
+                    lines.append('slice ' + ' '.join('-' if x is None else str(x) for x in (a, b, c)))
+                    if w is None:
+                        errcls[len(expect)] = 'ValueError'
+                        expect.append('err ' + state(v)); speclines.append('err ' + ','.join(lab(x) for x in l))
+                    else:
+                        expect.append('ok ' + state(w)); speclines.append('ok ' + ','.join(lab(x) for x in want))
+                    meta.append(('slice-table', (f'Variables({l!r})[{sl!r}]',)))
+    ctx.tick('slice table', n_cases)
+
+
 def repro(hist):
-    lines = ['from dimod.variables import Variables', 'import numpy as np', 'from numpy import int64, float32, float64', 'v = Variables()']
+    lines = ['from dimod.variables import Variables', 'import numpy as np, pickle', 'from numpy import int64, float32, float64', 'v = Variables()',
+             'def _cls(f):\n    try:\n        f()\n    except Exception as e:\n        return type(e).__name__\n    return None']
     for h in hist:
         lines.append('try:\n    ' + h + '\nexcept (ValueError, IndexError) as e: print("raised", e)')
     lines.append('print(list(v), v.__reduce__()[2])')
     return '\n'.join(lines)
 
 
-def one_history(ctx, r, nops, lines, expect, speclines, meta):
+def one_history(ctx, r, nops, lines, expect, speclines, meta, errcls):
     v = Variables(); ref = Ref(); hist = []
     lines.append('clear'); expect.append('ok ' + state(v)); speclines.append('ok '); meta.append(('clear', tuple()))
     for _ in range(r.randint(1, nops)):
         k = r.choice(['append', 'append', 'append', 'appendnone', 'pop', 'relabel', 'relabel', 'relabel', 'relabelints', 'remove',
-                      'relabel_absent', 'extend', 'extend_range'])
+                      'relabel_absent', 'extend', 'extend_range', 'extend_list', 'copy', 'pickle', 'slice'])
         before = state(v)
-        ok = True
+        ok = True; cls = None
         try:
             if k == 'append':
                 x = r.choice(ALPHA); p = r.random() < .5; y = alias(r, x, store=True)
-                lines.append(f'append {lab(x)} {int(p)}'); hist.append(f'v._append({y!r}, permissive={p})')
+                lines.append(f'append {lab(x)} {int(p)}'); hist.append(f'v._append({rp(y)}, permissive={p})')
                 sok = ref.append(x, p); v._append(y, permissive=p)
             elif k == 'extend':
                 x = r.choice(ALPHA); p = r.random() < .5
@@ -206,8 +508,37 @@ def one_history(ctx, r, nops, lines, expect, speclines, meta):
                 elif sok is False and x != b - 1:
                     pass
                 v._extend(range(a, b), permissive=p)
+            elif k == 'extend_list':
+                xs = [r.choice(ALPHA + [None]) for _ in range(r.randint(0, 4))]; p = r.random() < .6
+                lines.append(f'extend {int(p)} {labs(xs)}'); hist.append(f'v._extend({xs!r}, permissive={p})')
+                sok = True
+                for x in xs:
+                    if not ref.append(x, p):
+                        sok = False
+                        break
+                v._extend(xs, permissive=p)
+            elif k == 'copy':
+                how = r.choice(['v.copy()', 'Variables(v)', 'v[:]'])
+                lines.append('copy' if how != 'v[:]' else 'slice - - -'); hist.append(f'v = {how}'); sok = True
+                v = eval(how)
+            elif k == 'pickle':
+                lines.append('pickle'); hist.append('v = pickle.loads(pickle.dumps(v))'); sok = True
+                v = pickle.loads(pickle.dumps(v))
+            elif k == 'slice':
+                n0 = len(ref.l)
+                sl = slice(r.choice([None, None, -n0 - 1, -2, -1, 0, 1, 2, n0, n0 + 2]), r.choice([None, None, -n0 - 1, -2, -1, 0, 1, 2, n0, n0 + 2]),
+                           r.choice([None, 1, 2, 3, -1, -1, -2, 0]))
+                lines.append('slice ' + ' '.join('-' if a is None else str(a) for a in (sl.start, sl.stop, sl.step)))
+                hist.append(f'v = v[{sl!r}]')
+                ctx.tick('branch slice: zero step' if sl.step == 0 else 'branch slice: negative step' if (sl.step or 1) < 0 else 'branch slice: positive step')
+                try:
+                    ref.l = ref.l[sl]; sok = True
+                except ValueError:
+                    sok = False
+                v = v[sl]
             elif k == 'appendnone':
                 lines.append('append - 0'); hist.append('v._append()')
+                ctx.tick('branch autoLabel: least free integer' if len(ref.l) in ref.l else 'branch autoLabel: the index')
                 sok = ref.append(None, False); v._append()
             elif k == 'pop':
                 lines.append('pop'); hist.append('v._pop()'); sok = ref.pop(); v._pop()
@@ -233,6 +564,18 @@ def one_history(ctx, r, nops, lines, expect, speclines, meta):
                     else:
                         m = {x: r.choice(ALPHA + EXTRA_NEW) for x in ks}
                 lines.append('relabel ' + (','.join(f'{lab(a)}={lab(b)}' for a, b in m.items()) or '-'))
+                # branches the proofs split on (relabel_spec / twoPhase_spec / relabelOne): published as counts
+                _news = list(m.values())
+                if len(set(_news)) < len(_news):
+                    ctx.tick('branch relabel: rejected, two keys share a target')
+                elif any(n in ref.l and n not in m for n in _news):
+                    ctx.tick('branch relabel: rejected, target is an existing label that is not a key')
+                else:
+                    ctx.tick('branch relabel: two-phase plan' if any(k_ in _news for k_ in m) else 'branch relabel: one-phase plan')
+                    if any(a in ref.l and b == ref.l.index(a) and a != b for a, b in m.items()):
+                        ctx.tick('branch relabelOne: new label is the own index (entries erased)')
+                    if any(a not in ref.l for a in m):
+                        ctx.tick('branch relabel: key that is not a variable')
                 hist.append(f'v._relabel({m!r})'); sok = ref.relabel(m); v._relabel(m)
             elif k == 'relabelints':
                 lines.append('relabelints'); hist.append('v._relabel_as_integers()')
@@ -240,13 +583,20 @@ def one_history(ctx, r, nops, lines, expect, speclines, meta):
             elif k == 'remove':
                 x = r.choice(ALPHA); lines.append(f'remove {lab(x)}'); hist.append(f'v._remove({x!r})')
                 sok = ref.remove(x); v._remove(x)
-        except (ValueError, IndexError):
-            ok = False
+        except (ValueError, IndexError) as e:
+            ok = False; cls = type(e).__name__
         except Exception as e:  # any other exception type is itself a deviation from list behaviour
-            ok = False
+            ok = False; cls = type(e).__name__
             ctx.fail('property', f'Variables.{k}', 'unexpected exception type', f'{type(e).__name__}: {e}',
                      repro=repro(hist) + '\nassert False', detail=dict(history=list(hist)))
         ctx.tick(k + ('' if ok else ':raises'))
+        if cls is not None:
+            errcls[len(expect)] = cls
+            if not sok and cls != LIST_CLS.get(k, 'ValueError') and cls in ('ValueError', 'IndexError'):
+                last = hist[-1]
+                ctx.fail('property', f'Variables.{k}', 'exception class', f'`{last}` raised {cls}; a list (and the documented contract) raises {LIST_CLS.get(k, "ValueError")}',
+                         repro=repro(hist[:-1]) + f'\nassert _cls(lambda: {last.replace("v = ", "")}) == {LIST_CLS.get(k, "ValueError")!r}', detail=dict(history=list(hist)))
+                return
         expect.append(('ok ' if ok else 'err ') + state(v))
         speclines.append(('ok ' if sok else 'err ') + ','.join(lab(x) for x in ref.l))
         meta.append((k, tuple(hist)))
@@ -256,7 +606,7 @@ def one_history(ctx, r, nops, lines, expect, speclines, meta):
             ctx.fail('property', f'Variables.{k}', 'accept/reject', f'call {"returned" if ok else "raised"} but the list semantics {"accepts" if sok else "rejects"} it',
                      repro=repro(hist) + '\nassert False', detail=dict(history=list(hist)))
             return
-        if not ok and state(v) != before and k != 'extend_range':  # _extend is a fold of _append: a raising extend keeps the appended prefix
+        if not ok and state(v) != before and k not in ('extend_range', 'extend_list'):  # _extend is a fold of _append: a raising extend keeps the appended prefix
             ctx.fail('property', f'Variables.{k}', 'changed on raise', f'state changed by a call that raised: {before} -> {state(v)}',
                      repro=repro(hist) + '\nassert False', detail=dict(history=list(hist)))
             return
@@ -264,6 +614,10 @@ def one_history(ctx, r, nops, lines, expect, speclines, meta):
         observe(ctx, r, v, ref, list(hist), k)
         if ctx.nfail() != nf:
             return
+        if r.random() < .35:
+            readers(ctx, r, v, ref, list(hist), lines, expect, speclines, meta, errcls)
+            if ctx.nfail() != nf:
+                return
 
 
 def sweep(ctx, lines, expect, speclines, meta):
@@ -318,23 +672,38 @@ def run(ctx):
     ctx.rule = ('random histories of semi-public Variables mutators over a mixed alphabet (ints incl. negative, numeric aliases, '
                 'strings, nested tuples); a case = one operation in its history; non-trivial = the state changed or the call raised; '
                 'distinct by (op line, state before)')
-    lines, expect, speclines, meta = [], [], [], []
+    lines, expect, speclines, meta, errcls = [], [], [], [], {}
     for _ in range(nhist):
-        one_history(ctx, r, 30, lines, expect, speclines, meta)
+        one_history(ctx, r, 30, lines, expect, speclines, meta, errcls)
         if len([f for f in ctx.failures if f['kind'] == 'property']) >= 8:
             break
     if not ctx.quick:
         sweep(ctx, lines, expect, speclines, meta)
+    slice_table(ctx, lines, expect, speclines, meta, errcls)
+    alias_cases(ctx, r, lines, expect, speclines, meta)
     got = run_driver('varsdriver', lines)
     ctx.corr_lines += len(lines)
     for i, ln in enumerate(lines):
         g = got[i] if i < len(got) else 'MISSING'
         gm, _, gs = g.partition(' | ')
+        gs, _, gc = gs.partition(' | ')
+        if ln == 'restore':
+            # the returned mapping is a dict: compare it as a set of pairs
+            def norm(t):
+                parts = t.split(' / ')
+                if len(parts) > 1:
+                    parts[1] = ','.join(sorted(parts[1].split(',')))
+                return ' / '.join(parts)
+            gm = norm(gm); expect[i] = norm(expect[i])
+        if i in errcls and gm == expect[i] and gc != errcls[i]:
+            ctx.fail('correspondence', 'Variables vs VState', meta[i][0] + ': exception class', f'line {i} `{ln}`: impl raised {errcls[i]}, model names {gc or "none"}',
+                     detail=dict(history=list(meta[i][1])))
+            break
         if gm != expect[i]:
             ctx.fail('correspondence', 'Variables vs VState', meta[i][0], f'line {i} `{ln}`: impl `{expect[i]}` model `{gm}`',
                      detail=dict(history=list(meta[i][1])))
             break
-        if ln != 'clear' and gs != speclines[i]:
+        if ln != 'clear' and speclines[i] is not None and gs != speclines[i]:
             ctx.fail('correspondence', 'LSpec vs reference list', meta[i][0], f'line {i} `{ln}`: python list `{speclines[i]}` Lean spec `{gs}`',
                      detail=dict(history=list(meta[i][1])))
             break
